@@ -170,7 +170,7 @@ class Ctx:
     def hypothesis(self, body, strategy, max_examples, shard_seed, shrink=True):
         """Run ``body(value)`` under Hypothesis; a Violation is shrunk and recorded."""
         import hypothesis
-        from hypothesis import HealthCheck, Phase, given, settings
+        from hypothesis import HealthCheck, Phase, Verbosity, given, settings
 
         phases = [Phase.generate] + ([Phase.shrink] if shrink else [])
         last = {}
@@ -197,6 +197,7 @@ class Ctx:
         test = hypothesis.seed(shard_seed)(test)
         test = settings(max_examples=max_examples, database=None, deadline=None,
                         derandomize=False, report_multiple_bugs=False, phases=phases,
+                        verbosity=Verbosity.quiet,
                         suppress_health_check=list(HealthCheck))(test)
         try:
             with watchdog(total=True):
@@ -340,7 +341,10 @@ def main(argv=None):
     prop = args.property.upper()
     seed = int(os.environ.get('VERIF_SEED', '1') or 1)
     tier = args.tier
-    os.environ['PYTHONHASHSEED'] = os.environ.get('PYTHONHASHSEED', '0')
+    if os.environ.get('PYTHONHASHSEED') is None:
+        # string hashing must be pinned for this process too (forked workers inherit its hash secret)
+        os.environ['PYTHONHASHSEED'] = '0'
+        os.execv(sys.executable, [sys.executable] + sys.argv)
     t0 = time.time()
 
     try:
